@@ -150,6 +150,8 @@ type c17mgr struct {
 	lastDeliv    string
 	timeouts     int
 	pk           poker
+	panicMu      sync.Mutex
+	panicked     string
 	nMS, nMX     int
 	nX           []int
 }
@@ -164,7 +166,18 @@ func newC17mgr(cfgs []string) *c17mgr {
 		p := &c17proxy{pk: m.pk, Service: c.svc, idx: i, fwd: make(chan func()), ack: make(chan struct{})}
 		go func() {
 			for f := range p.fwd {
-				f()
+				// the manager's callback runs on this (harness) goroutine: a panic inside the manager can
+				// be recovered here and reported as an observation of this very case
+				func() {
+					defer func() {
+						if r := recover(); r != nil {
+							m.panicMu.Lock()
+							m.panicked = strings.ReplaceAll(fmt.Sprint(r), " ", "_")
+							m.panicMu.Unlock()
+						}
+					}()
+					f()
+				}()
 				p.ack <- struct{}{}
 			}
 		}()
@@ -296,6 +309,11 @@ func (m *c17mgr) snapshot() string {
 	if n := atomic.LoadInt32(&m.reent); n > 0 || to > 0 {
 		bad = fmt.Sprintf("re%d,to%d", n, to)
 	}
+	m.panicMu.Lock()
+	if m.panicked != "" {
+		bad = "panic:" + m.panicked
+	}
+	m.panicMu.Unlock()
 	return strings.Join([]string{m.lastRet, m.lastDeliv, h, z, bys, sts, strings.Join(pend, ","),
 		m.wH.render(), m.wS.render(), aH, aS, strings.Join(ls, "/"), bad}, ";")
 }
@@ -457,6 +475,8 @@ type c17mcase struct {
 }
 
 func runMgrCase(cs c17mcase, alphabet []string) (done, snaps, next []string) {
+	tr := newTrack("C17.mgr", strings.Join(cs.cfgs, ","))
+	defer tr.done()
 	m := newC17mgr(cs.cfgs)
 	m.settle()
 	snaps = append(snaps, m.snapshot())
@@ -464,6 +484,7 @@ func runMgrCase(cs c17mcase, alphabet []string) (done, snaps, next []string) {
 		if !m.applicable(a) {
 			continue
 		}
+		tr.step(a)
 		m.do(a)
 		done = append(done, a)
 		snaps = append(snaps, m.snapshot())
@@ -478,6 +499,8 @@ func runMgrCase(cs c17mcase, alphabet []string) (done, snaps, next []string) {
 }
 
 func walkMgrCase(cfgs []string, weighted []string, steps int, r *rng) (done, snaps []string) {
+	tr := newTrack("C17.mgr", strings.Join(cfgs, ","))
+	defer tr.done()
 	m := newC17mgr(cfgs)
 	m.settle()
 	snaps = append(snaps, m.snapshot())
@@ -492,6 +515,7 @@ func walkMgrCase(cfgs []string, weighted []string, steps int, r *rng) (done, sna
 			break
 		}
 		a := pick(r, app)
+		tr.step(a)
 		m.do(a)
 		done = append(done, a)
 		snaps = append(snaps, m.snapshot())
@@ -584,10 +608,12 @@ func c17EnumerateMgr(e *env, cfgs []string, prefix []string, alphabet []string, 
 // c17MgrInterleavings: run the prefix, then hand the queued notifications of the services to the manager
 // in every order that respects each service's own order (all multiset permutations; sampled above cap).
 func c17MgrInterleavings(e *env, cfgs []string, prefix []string, cap int, r *rng) {
+	tr := newTrack("C17.mgr", strings.Join(cfgs, ","))
 	m := newC17mgr(cfgs)
 	m.settle()
 	for _, a := range prefix {
 		if m.applicable(a) {
+			tr.step(a)
 			m.do(a)
 		}
 	}
@@ -596,6 +622,7 @@ func c17MgrInterleavings(e *env, cfgs []string, prefix []string, cap int, r *rng
 		counts[i], _ = p.counts()
 	}
 	m.cleanup()
+	tr.done()
 	var seqs [][]string
 	total := 1 // multinomial
 	k := 0
@@ -652,6 +679,7 @@ func runC17Mgr(e *env) {
 	// NewManager preconditions
 	e.emit("C17.mgrnew", "-", c17ResClass(func() error { _, err := services.NewManager(); return err }()))
 	for _, pre := range []string{"N", "NN", "S", "NS", "T", "NT", "SNN", "NNN"} {
+		tr := newTrack("C17.mgrnew", pre)
 		var ss []services.Service
 		var cs []*c17svc
 		for _, ch := range pre {
@@ -671,6 +699,7 @@ func runC17Mgr(e *env) {
 		for _, c := range cs {
 			c.cleanup()
 		}
+		tr.done()
 	}
 	// exhaustive: started managers of 1 and 2 full services, all interleavings of releases / deliveries / stop
 	d1, d2, cp := 8, 6, 1200
@@ -705,12 +734,17 @@ func runC17Mgr(e *env) {
 	for _, x := range rs {
 		e.emit(c17EmitMgr(x.cfgs, x.done, x.snaps)...)
 	}
+	e.mu.Lock()
+	e.w.Flush() // what has been observed so far survives a crash of the process in a later part
+	e.mu.Unlock()
 }
 
 // ------------------------------------------------------------------ failure watcher
 
 // Line: C17.fw <mode>,<n> <actions> <snapshots>; snapshot = forwarded failures ; chan closed ; panics
 func runFWCase(mode string, n int, weighted []string, steps int, r *rng) (done, snaps []string) {
+	tr := newTrack("C17.fw", mode+","+strconv.Itoa(n))
+	defer tr.done()
 	w := services.NewFailureWatcher()
 	pk := make(poker, 1)
 	var mu sync.Mutex
@@ -835,6 +869,7 @@ func runFWCase(mode string, n int, weighted []string, steps int, r *rng) (done, 
 		if a == "C" {
 			nC++
 		}
+		tr.step(a)
 		switch {
 		case a == "C":
 			func() {
